@@ -493,3 +493,108 @@ func (m *Monitors) checkAcceptance(n *Node, msg *Msg, pre Pre) {
 }
 
 var _ = fmt.Sprint
+
+// cloneCheck (C11, thorough): at emission time every correct peer is cloned by replay and the message is delivered to each clone
+// whose state satisfies the statement's precondition; acceptance is judged there, whether or not the schedule ever delivers it.
+func (m *Monitors) cloneCheck(sender *Node, sm *SentMsg) {
+	w := m.w
+	meta := sm.Meta
+	if !meta.OK || m.w.Viol != nil {
+		return
+	}
+	// NEW_VIEW and VIEW_CHANGE always, PREPARE / COMMIT sampled (they are frequent and cheap to get wrong only in bulk)
+	if (meta.Union == UP || meta.Union == UC) && sm.Seq%6 != 0 {
+		return
+	}
+	if meta.Union == UPP {
+		return
+	}
+	for _, to := range sm.To {
+		if !w.IsCorrect(to) || to == sender.Idx || w.Nodes[to].Crashed {
+			continue
+		}
+		peer := w.Nodes[to]
+		if peer.H() != meta.H {
+			continue
+		}
+		if fakes.BlockID(m.prevBlockOf(sender, meta.H)) != fakes.BlockID(m.prevBlockOf(peer, meta.H)) {
+			continue
+		}
+		clone, ok := w.CloneByReplay(to)
+		if !ok || clone.H() != peer.H() || clone.V() != peer.V() {
+			m.Facts["c11-clone-diverged"]++
+			continue
+		}
+		pre := m.pre0(clone)
+		func() {
+			defer func() { _ = recover() }()
+			clone.VN.Gc()
+			clone.VN.MainMessage(sm.Raw)
+			clone.VN.WorkerMessage(sm.Raw)
+		}()
+		eff := m.effects(clone, pre)
+		m.Facts["c11-clone-judged"]++
+		if why := m.acceptanceFailure(clone, meta, pre, eff); why != "" {
+			m.fail("C11", "emitted-message-rejected-by-peer-clone:"+kindName(meta.Union), "%s(h=%d,v=%d) emitted by correct node %d is not accepted by (a replayed copy of) correct node %d in state (h=%d,v=%d): %s",
+				kindName(meta.Union), meta.H, meta.V, sender.Idx, to, pre.H, pre.V, why)
+			return
+		}
+	}
+}
+
+// acceptanceFailure returns "" if the statement's precondition does not apply or the accepting effect happened.
+func (m *Monitors) acceptanceFailure(n *Node, meta Meta, pre Pre, eff Effect) string {
+	storeCall := func(kind string) bool {
+		for _, s := range eff.StoreCalls {
+			if s.Kind == kind && s.Sender == meta.Sender && uint64(s.V) == meta.V && (kind == "VC" || s.Hash == meta.Hash) {
+				return true
+			}
+		}
+		return false
+	}
+	switch meta.Union {
+	case UNV:
+		if pre.V > meta.V {
+			return ""
+		}
+		for _, e := range n.Sto.Log[:pre.StoreLen] {
+			if e.Kind == "PP" && e.Stored && uint64(e.H) == meta.H && uint64(e.V) == meta.V {
+				return ""
+			}
+		}
+		ppStored, prepared := false, false
+		for _, s := range eff.Stored {
+			if s.Kind == "PP" && uint64(s.V) == meta.V && s.Hash == meta.Hash {
+				ppStored = true
+			}
+		}
+		for _, s := range eff.Sends {
+			if s.Meta.Union == UP && s.Meta.V == meta.V && s.Meta.Hash == meta.Hash {
+				prepared = true
+			}
+		}
+		if !(n.H() > pre.H || n.V() >= meta.V) || !ppStored || !prepared {
+			return fmt.Sprintf("view now %d, proposal stored=%v, PREPARE sent=%v", n.V(), ppStored, prepared)
+		}
+	case UVC:
+		com := m.w.Committee(primitives.BlockHeight(meta.H))
+		if !n.ID.Equal(ref.Leader(primitives.View(meta.V), com)) || pre.V > meta.V {
+			return ""
+		}
+		if !storeCall("VC") {
+			return "the addressed leader did not count the vote"
+		}
+	case UP:
+		if pre.V > meta.V {
+			return ""
+		}
+		if !storeCall("P") {
+			return "PREPARE not counted"
+		}
+	case UC:
+		if !storeCall("C") {
+			return "COMMIT not counted"
+		}
+	}
+	return ""
+}
